@@ -310,9 +310,20 @@ def main(argv):
             results = [run_shard(j) for j in jobs]
         else:
             ctx = mp.get_context("fork")
+            # wall-clock guard: when the budget is used up no further results are awaited; the shards not finished are
+            # reported as inconclusive (never as a violation)
+            budget = float(os.environ.get("VERIF_BUDGET_S", "900" if tier == "quick" else "7200"))
             with ctx.Pool(nproc, maxtasksperchild=None) as pool:
-                for r in pool.imap_unordered(run_shard, jobs, chunksize=1):
-                    results.append(r)
+                it = pool.imap_unordered(run_shard, jobs, chunksize=1)
+                while len(results) < len(jobs):
+                    left = budget - (time.time() - t0)
+                    try:
+                        results.append(it.next(timeout=max(1.0, left)))
+                    except mp.TimeoutError:
+                        pool.terminate()
+                        break
+                    except StopIteration:
+                        break
     results.sort(key=lambda r: (r["sub"], str(r["shard"])))
 
     evaluations = n_replayed
@@ -364,6 +375,8 @@ def main(argv):
         "known_findings_hit": sorted({k for k, _ in known_lines}),
         "thin_classes": thin,
         "harness_errors": len(errors),
+        "shards": len(jobs),
+        "inconclusive_shards": len(jobs) - len(results),
     }
     if getattr(mod, "EXHAUSTIVE", None):
         cov["exhaustive_parts"] = mod.EXHAUSTIVE
@@ -381,8 +394,9 @@ def main(argv):
             print(f"  {msg}"[:600])
             print(f"VIOLATION property={prop} replay={p}")
         return 1
+    inc = len(jobs) - len(results)
     print(f"{prop} {tier}: held on {evaluations} cases ({len(nontrivial)} distinct non-trivial) "
-          f"in {wall:.1f}s seed={seed}")
+          f"in {wall:.1f}s seed={seed}" + (f" [{inc} of {len(jobs)} shards not finished within the time budget: inconclusive]" if inc else ""))
     return 0
 
 
